@@ -11,7 +11,7 @@
    commodity the price is expressed in); the priced commodity is the other end of the
    edge.  The graph is the list of its edges in creation order (boost adjacency_list
    with vecS: edge and adjacency iteration follow creation order). *)
-From LedgerV Require Import Base.Prelude Gen.PriceMemo.
+From LedgerV Require Import Base.Prelude Gen.PriceMemo Gen.CostDate.
 Local Open Scope Z_scope.
 
 Definition comm := str.
@@ -225,35 +225,74 @@ Definition convert_all (g : graph) (prim : list comm) (l : list holding) (tgt : 
 
 Definition Qabs' (q : Q) : Q := if Qnum q <? 0 then Qopp q else q.
 
+(* the dates written on a costed posting and on its transaction (days): `DATE[=AUX]` on the
+   transaction line, `; [DATE]`, `; [DATE=AUX]`, `; [=AUX]` in the posting's note *)
+Record dates : Type := mkDates {
+  x_prim : Z; x_aux : option Z;          (* the transaction's date and auxiliary date *)
+  p_prim : option Z; p_aux : option Z    (* the posting's own dates, if written *)
+}.
+
+(* item_t::date() (item.h:180-185) for the transaction *)
+Definition xact_date (use_aux : bool) (d : dates) : Z :=
+  if use_aux then match x_aux d with Some a => a | None => x_prim d end else x_prim d.
+
+(* post_t::date() (post.cc:90-118): the posting's own date, falling back to the transaction's *)
+Definition post_date (use_aux : bool) (d : dates) : Z :=
+  let prim := match p_prim d with Some p => p | None => xact_date use_aux d end in
+  if use_aux then
+    match (match p_aux d with Some a => Some a | None => x_aux d end) with
+    | Some a => a
+    | None => prim
+    end
+  else prim.
+
+(* the day finalize hands to exchange() (xact.cc:296-299); which expression it is is re-read from
+   the source on every run (Gen/CostDate.v, harness/translators/c10_cost_date.py) *)
+Definition cost_day (src : cost_date_src) (use_aux : bool) (d : dates) : Z :=
+  match src with
+  | CostXactDate => xact_date use_aux d
+  | CostPostDate => post_date use_aux d
+  | CostDateUnrecognised => 0
+  end.
+
 Inductive item : Type :=
 | IP (when : Z) (src : comm) (q : Q) (tgt : comm)
       (* `P DATE [TIME] SRC Q TGT` (pool.cc:317-367) *)
-| ICost (day : Z) (aq : Q) (ac : comm) (total : bool) (cq : Q) (cc : comm) (virt : bool)
-      (* a posting `aq ac @ cq cc` (total = false), `@@` (total = true), `(@)`/`(@@)` (virt) in a
-         transaction dated `day`: textual.cc:1615-1625 turns the cost into a total (per-unit
-         cost times the amount; a total cost takes the sign of the amount), pool.cc:259-280
-         records |cost / amount| at midnight of the transaction date unless the cost is
-         virtual or the price is exactly zero *)
-| IImplied (day : Z) (xq : Q) (xc : comm) (yq : Q) (yc : comm).
+| ICost (d : dates) (aq : Q) (ac : comm) (total : bool) (cq : Q) (cc : comm) (virt : bool)
+      (* a posting `aq ac @ cq cc` (total = false), `@@` (total = true), `(@)`/`(@@)` (virt):
+         textual.cc:1615-1625 turns the cost into a total (per-unit cost times the amount; a total
+         cost takes the sign of the amount), pool.cc:259-280 records |cost / amount| at midnight of
+         the day finalize passes, unless the cost is virtual or the price is exactly zero *)
+| IImplied (d : dates) (xq : Q) (xc : comm) (yq : Q) (yc : comm).
       (* a transaction without costs and without a null posting whose postings sum to xq xc
          (the first posting's commodity) and yq yc: xact.cc:218-281 gives every xc posting the
-         cost |yq / xq| per unit *)
+         cost |yq / xq| per unit; `d` carries the dates of that posting *)
 
 Definition midnight (day : Z) : Z := day * 86400.
 
-Definition entry_of (i : item) : option entry :=
+(* how an item enters the history, given the date source of finalize and the value of
+   item_t::use_aux_date while the journal is read *)
+Definition entry_of_with (src : cost_date_src) (use_aux : bool) (i : item) : option entry :=
   match i with
   | IP w s q t => Some (mkEntry w s (mkPrice (Qred q) t))
-  | ICost day aq ac total cq cc virt =>
+  | ICost d aq ac total cq cc virt =>
       let cost := if total then (if Qnum aq <? 0 then Qopp cq else cq) else Qmult cq aq in
       let pu := Qred (Qabs' (Qdiv cost aq)) in
       if virt || (Qnum pu =? 0) then None
-      else Some (mkEntry (midnight day) ac (mkPrice pu cc))
-  | IImplied day xq xc yq yc =>
+      else Some (mkEntry (midnight (cost_day src use_aux d)) ac (mkPrice pu cc))
+  | IImplied d xq xc yq yc =>
       let pu := Qred (Qabs' (Qdiv yq xq)) in
       if Qnum pu =? 0 then None
-      else Some (mkEntry (midnight day) xc (mkPrice pu yc))
+      else Some (mkEntry (midnight (cost_day src use_aux d)) xc (mkPrice pu yc))
   end.
+
+(* The journal is read before the report options are normalised (global.cc:237-239;
+   item_t::use_aux_date is assigned in report_t::normalize_options, report.cc:82), so while
+   finalize runs use_aux_date still has its initial value false, --aux-date or not. *)
+Definition parse_time_use_aux : bool := false.
+
+Definition entry_of (i : item) : option entry :=
+  entry_of_with finalize_cost_date parse_time_use_aux i.
 
 Fixpoint history_of (l : list item) : history :=
   match l with
